@@ -329,6 +329,103 @@ def evaluate(ctx, cases):
                     'role': c['role'], 'result': o['result'], 'callbacks': o['callbacks'][:8]}, cap=6)
 
 
+# ------------------------------------------------------------------ replay buffer (Reader.v)
+R_IMPORTS = 'From XV Require Import Base Reader.'
+R_DEFS = '''Definition rcase (want n scanned : N) (sched : list nat) :=
+  let data := repeat 0%N (N.to_nat n) in
+  let r := mk_reader (N.to_nat want) sched data in
+  (length (buf r), length (rest r),
+   match scan_then_parse r (N.to_nat scanned) with Some d => (true, length d) | None => (false, 0) end).
+'''
+
+
+def subject_reader(case):
+    from xmlschema.utils.streams import DefusableReader
+    data = bytes((i * 7 + 3) % 251 for i in range(case['n']))
+    sched = list(case['sched'])
+
+    class Short(io.BufferedIOBase):
+        def __init__(self):
+            self._b = io.BytesIO(data)
+            self.calls = 0
+
+        def readable(self):
+            return True
+
+        def seekable(self):
+            return False
+
+        def read(self, n=-1):
+            k = sched[self.calls] + 1 if self.calls < len(sched) else None
+            self.calls += 1
+            if n is None or n < 0:
+                return self._b.read() if k is None else self._b.read(k)
+            return self._b.read(n if k is None else min(n, k))
+
+        def read1(self, n=-1):
+            return self.read(n)
+    r = DefusableReader(Short(), initial_buffer_size=case['want'])
+    out = {'buffer_is_prefix': bytes(r.getbuffer()) == data[:len(r.getbuffer())], 'buffer_len': len(r.getbuffer())}
+    got = b''
+    while len(got) < case['scanned']:
+        chunk = r.read(case['scanned'] - len(got))
+        if not chunk:
+            break
+        got += chunk
+    out['scan_ok'] = got == data[:case['scanned']]
+    # the rewind as defuse_xml() does it: seek(0), refused when it raises OSError
+    try:
+        r.seek(0)
+        out['seekable'] = True
+    except OSError:
+        out['seekable'] = False
+    if out['seekable']:
+        again = b''
+        while True:
+            chunk = r.read(4096)
+            if not chunk:
+                break
+            again += chunk
+        out['parse_same'] = again == data
+        out['parse_len'] = len(again)
+    return out
+
+
+def check_reader(ctx):
+    """DefusableReader over a non-seekable stream with arbitrary short reads vs Reader.v"""
+    rng = ctx.rng
+    cases = []
+    for _ in range(150 if ctx.quick() else 2000):
+        want = rng.choice([8192, 8192, 10000])
+        n = rng.choice([0, rng.randint(1, 200), rng.randint(want - 50, want + 50), rng.randint(want, 3 * want)])
+        sched = [rng.choice([0, 1, 63, rng.randint(0, 300), rng.randint(0, 9000)]) for _ in range(rng.randint(0, 40))]
+        scanned = rng.choice([0, rng.randint(0, max(0, n)), min(n, want), want + 1, rng.randint(0, 3 * want)])
+        cases.append({'want': want, 'n': n, 'sched': sched, 'scanned': scanned})
+    impl = common.pool_map(subject_reader, cases, procs=8)
+    terms = ['rcase %d %d %d %s' % (c['want'], c['n'], c['scanned'], common.coq_list([str(k) for k in c['sched']])) for c in cases]
+    model = common.coq_eval('C13r', R_IMPORTS, R_DEFS, terms, shard=50)
+    for c, o, m in zip(cases, impl, model):
+        rep = {'kind': 'reader', 'case': c, 'impl': o}
+        ctx.count(('reader', c['want'], c['n'], c['scanned'], tuple(c['sched'])), nontrivial=bool(c['sched']) and c['n'] > 64)
+        if 'harness_exception' in o:
+            ctx.violation('DefusableReader run failed: %s' % o['harness_exception'], rep, no_input=True)
+            continue
+        blen, rlen, (ok, plen) = m
+        ctx.dist('replay buffer', 'rewind %s / first read %s' % ('possible' if ok else 'refused', 'short' if c['sched'] and c['sched'][0] + 1 < min(c['want'], c['n']) else 'full'))
+        bad = None
+        if not o['buffer_is_prefix'] or not o['scan_ok']:
+            bad = 'the reader returns bytes that differ from the stream'
+        elif o['buffer_len'] != blen:
+            bad = 'the replay buffer holds %d bytes, the model %d (C13_buffer_filled_for_every_read_schedule)' % (o['buffer_len'], blen)
+        elif o['seekable'] != ok:
+            bad = 'after a scan of %d bytes the reader %s be rewound, in the model it %s' % (c['scanned'], 'can' if o['seekable'] else 'cannot', 'can' if ok else 'cannot')
+        elif o['seekable'] and (not o['parse_same'] or o['parse_len'] != plen):
+            bad = 'the pass after the rewind reads %d bytes (same as the stream: %s), the model %d' % (o['parse_len'], o['parse_same'], plen)
+        if bad:
+            ctx.violation('%s [initial buffer %d, stream of %d bytes, read schedule %s...]' % (bad, c['want'], c['n'], c['sched'][:6]),
+                          dict(rep, theorem='C13_scan_then_parse_same_bytes'), no_input=False)
+
+
 def gen(ctx):
     modes = ['never', 'remote', 'nonlocal', 'always']
     kinds = ['text', 'bytes', 'StringIO', 'BytesIO', 'file', 'raw-noseek', 'buffered-noseek', 'raw-noseek-short', 'buffered-noseek-short',
@@ -369,10 +466,13 @@ def run(ctx):
     try:
         cases = gen(ctx)
         ctx.exhaustive = True
-        ctx.rule = ('defuse mode (4) x source kind (9) x base_url locality (3) x payload (21) x role (instance; main and '
+        ctx.rule = ('defuse mode (4) x source kind (11) x base_url locality (3) x payload (21) x role (instance; main and '
                     'included schema for text/bytes/path sources%s); non-trivial = a document with an entity declaration or '
-                    'external DTD subset under a mode other than never' % (', 4 payloads in the quick tier' if ctx.quick() else ''))
+                    'external DTD subset under a mode other than never; replay buffer: DefusableReader over non-seekable streams with seeded '
+                    'short-read schedules compared with Reader.v (buffer length, rewind decision, bytes of the second pass)'
+                    % (', 4 payloads in the quick tier' if ctx.quick() else ''))
         evaluate(ctx, cases)
+        check_reader(ctx)
     finally:
         cleanup()
     ctx.assumptions = ['expat callback order is recorded with a logging parser configured like xml.sax.expatreader, not verified',
@@ -383,6 +483,9 @@ def run(ctx):
 def replay(ctx, case):
     cleanup()
     try:
+        if case.get('kind') == 'reader':
+            check_reader(ctx)
+            return
         evaluate(ctx, [case['case']] + [dict(case['case'], mode='never')])
     finally:
         cleanup()
